@@ -1,6 +1,7 @@
 """E1 rules over the library impls: W1 (writer ⊆ reader), W2 (tag tables), W4 (containers)."""
 from .. import rx, wire
 from ..core import ob, rule, where
+from ..ir import callee, peel, peel_block, walk
 
 # writer-only types and the type whose reader is documented to read them back
 WRITER_ONLY = {
@@ -299,3 +300,170 @@ def w8(facts, tier):
                          f"old files are mis-framed")
     for ty in sorted(set(spec) - seen):
         yield ob(["C13"], "W8", f"missing-reader:{ty}", "violation", "", f"the format-0 specification describes {ty} but no such reader exists")
+
+
+# ---------------------------------------------------------------------------
+# W8d: what the format-0 readers put into the fields that format 0 does not carry
+
+FORMAT0_DEFAULTS = {
+    # (ADT, variant or None, field) -> value at file_version 0
+    ("savefile::SchemaEnum", "discriminant_size"): ("int", 1),      # format-0 enums were always written with one-byte discriminants
+    ("savefile::SchemaEnum", "has_explicit_repr"): ("int", 0),
+    ("savefile::SchemaEnum", "size"): ("None",),
+    ("savefile::SchemaEnum", "alignment"): ("None",),
+    ("savefile::SchemaStruct", "size"): ("None",),
+    ("savefile::SchemaStruct", "alignment"): ("None",),
+    ("savefile::Field", "offset"): ("None",),
+    ("savefile::Schema::Vector", "1"): ("variant", "Unknown"),
+    ("savefile::SchemaPrimitive::schema_string", "0"): ("variant", "Unknown"),
+}
+
+
+def _default_of_type(ty):
+    ty = ty.strip()
+    if ty.startswith("(") and ty.endswith(")"):
+        from .. import tys as _t
+        parts, depth, cur = [], 0, ""
+        for ch in ty[1:-1]:
+            if ch in "<([":
+                depth += 1
+            elif ch in ">)]":
+                depth -= 1
+            if ch == "," and depth == 0:
+                parts.append(cur)
+                cur = ""
+            else:
+                cur += ch
+        if cur.strip():
+            parts.append(cur)
+        return ("tuple", [_default_of_type(p) for p in parts])
+    if re.match(r"[ui](8|16|32|64|128|size)$", ty) or ty == "bool":
+        return ("int", 0)
+    if ty.startswith("core::option::Option<"):
+        return ("None",)
+    return ("default", ty)
+
+
+import re
+
+
+class V0Eval:
+    """value of an expression of a schema reader when deserializer.file_version == 0 (constants, tuples, None/unit variants;
+    anything read from the stream is ('read',))"""
+
+    def __init__(self, f):
+        self.f = f
+        self.env = {}
+        for x in walk(f["body"]):
+            if x.get("k") == "LetS" and x.get("init") is not None:
+                self.bind(x["pat"], ("lazy", x["init"]))
+
+    def bind(self, pat, val):
+        k = pat.get("k")
+        if k == "Bind":
+            self.env[pat["v"]] = val
+        elif k in ("Leaf", "Tuple"):
+            for i, sp in enumerate(pat.get("subs", [])):
+                q = sp.get("p", sp) if isinstance(sp, dict) else sp
+                idx = sp.get("f", i) if isinstance(sp, dict) else i
+                if isinstance(q, dict):
+                    self.bind(q, ("proj", val, int(idx) if str(idx).isdigit() else i))
+
+    def force(self, v, depth=0):
+        if depth > 20:
+            return ("?",)
+        if v[0] == "lazy":
+            return self.ev(v[1], depth + 1)
+        if v[0] == "proj":
+            b = self.force(v[1], depth + 1)
+            if b[0] == "tuple" and v[2] < len(b[1]):
+                return b[1][v[2]]
+            return ("read",) if b[0] == "read" else ("?",)
+        return v
+
+    def cond(self, n):
+        n = peel_block(peel(n))
+        if n.get("k") == "Bin" and n["op"] in ("Gt", "Ge", "Lt", "Le", "Eq", "Ne"):
+            def side(s):
+                s = peel_block(peel(s))
+                if s.get("k") == "Lit" and "int" in s:
+                    return s["int"]
+                if s.get("k") == "Field" and s.get("f") == "file_version":
+                    return 0
+                if s.get("k") == "Cast":
+                    return side(s["e"])
+                return None
+            a, b = side(n["l"]), side(n["r"])
+            if a is None or b is None:
+                return None
+            return {"Gt": a > b, "Ge": a >= b, "Lt": a < b, "Le": a <= b, "Eq": a == b, "Ne": a != b}[n["op"]]
+        return None
+
+    def ev(self, n, depth=0):
+        n = peel_block(peel(n))
+        k = n.get("k")
+        if depth > 20:
+            return ("?",)
+        if k == "Lit":
+            return ("int", n["int"]) if "int" in n else ("lit",)
+        if k == "Block":
+            return self.ev(n["e"], depth + 1) if n.get("e") is not None else ("unit",)
+        if k == "If":
+            c = self.cond(n["c"])
+            if c is None:
+                return ("?",)
+            br = n["t"] if c else n.get("f")
+            return self.ev(br, depth + 1) if br is not None else ("unit",)
+        if k == "Tuple":
+            return ("tuple", [self.ev(e, depth + 1) for e in n["es"]])
+        if k == "Var":
+            return self.force(self.env.get(n["v"], ("?",)), depth + 1)
+        if k == "Try":
+            return ("read",)
+        if k == "Adt":
+            if n.get("adt") == "core::option::Option":
+                return ("None",) if n.get("variant") == "None" else ("Some",)
+            if not n.get("fields"):
+                return ("variant", n.get("variant"))
+            return ("adt", n.get("adt"))
+        if k == "Call":
+            c = callee(n) or ""
+            if c.endswith("Default::default") or c.endswith("::default"):
+                return _default_of_type(n.get("ty", ""))
+            if c.endswith(("Box::new", "::into", "::from")) and n.get("args"):
+                return self.ev(n["args"][0], depth + 1)
+            return ("read",) if "deserialize" in c or "read_" in c else ("call", c)
+        if k == "Cast":
+            return self.ev(n["e"], depth + 1)
+        return ("?", k)
+
+
+@rule("W8d", ["C13"], floor=9, doc="format 0: the fields that format 0 does not carry are filled with the neutral values (annotations None / false / "
+      "Unknown) and the discriminant width with 1 - the width every format-0 enum was written with - so the decoded schema is the stored "
+      "one minus memory-layout annotations")
+def w8d(facts, tier):
+    _, des = impl_pairs(facts)
+    seen = {}
+    for (ty, fid), (rf, rts) in sorted(des.items()):
+        if ty not in SCHEMA_TYPES:
+            continue
+        ev_ = V0Eval(rf)
+        for x in walk(rf["body"]):
+            if x.get("k") != "Adt" or not x.get("fields"):
+                continue
+            adt = x.get("adt", "")
+            name = adt if adt in ("savefile::SchemaEnum", "savefile::SchemaStruct", "savefile::Field") else f"{adt}::{x.get('variant')}"
+            for fl in x["fields"]:
+                want = FORMAT0_DEFAULTS.get((name, str(fl["f"])))
+                if want is None:
+                    continue
+                got = ev_.ev(fl["e"])
+                site = f"{name}.{fl['f']}@{ty.split('::')[-1]}"
+                key = site
+                ok = got == want
+                st = "pass" if ok else ("undecided" if got[0] in ("?", "call", "default") else "violation")
+                seen[key] = ob(["C13"], "W8d", key, st, where(rf, x),
+                               f"{rf['id']} at format 0: {name}.{fl['f']} = {got}" if ok else
+                               f"{rf['id']} at file_version 0 sets {name}.{fl['f']} to {got}, format 0 means {want}: a schema section of an old "
+                               f"file no longer decodes to the stored schema (it is then compared, and rejected, as a different schema)")
+    yield from seen.values()
